@@ -41,13 +41,15 @@ class PoolHooks:
             v('done:%d' % i, z3.BoolSort())
         v('kf_enqueue_without_idle_waiter', z3.BoolSort())
         v('exited_with_work', z3.BoolSort())
+        v('dispatch_woke_several', z3.BoolSort())
         v('foreign_task', z3.BoolSort())
 
     def initial(self, enc, S):
         c = []
         for i in self.tasks:
             c += [S['runs:%d' % i] == 0, z3.Not(S['disp:%d' % i]), z3.Not(S['done:%d' % i])]
-        c += [z3.Not(S['kf_enqueue_without_idle_waiter']), z3.Not(S['exited_with_work']), z3.Not(S['foreign_task'])]
+        c += [z3.Not(S['kf_enqueue_without_idle_waiter']), z3.Not(S['exited_with_work']), z3.Not(S['foreign_task']),
+              z3.Not(S['dispatch_woke_several'])]
         return c
 
     def apply_event(self, enc, ev, S, t, k, g, b):
@@ -78,6 +80,14 @@ class PoolHooks:
                     idle.append(z3.And(S['active:' + u.name], S['parked:' + u.name], z3.Not(S['notified:' + u.name])))
             anyidle = z3.Or(*idle) if idle else z3.BoolVal(False)
             S['kf_enqueue_without_idle_waiter'] = z3.Or(S['kf_enqueue_without_idle_waiter'], z3.Not(anyidle))
+            self._before = {u.name: S['notified:' + u.name] for u in enc.threads if u.park_locs}
+        elif ev.kind in ('notify_one', 'notify_all') and t.name == 'disp' and getattr(self, '_before', None) is not None and not getattr(enc, 'pool_dropping', False):
+            # one queued connection must wake at most one idle worker (waking all of them restarts every idle timer)
+            newly = [z3.And(S['notified:' + n], z3.Not(b0)) for n, b0 in self._before.items()]
+            two = [z3.And(newly[i], newly[j]) for i in range(len(newly)) for j in range(i + 1, len(newly))]
+            if two:
+                S['dispatch_woke_several'] = z3.Or(S['dispatch_woke_several'], z3.Or(*two))
+            self._before = None
 
 
 def build_pool_model(S, n_dispatch, K, n_dyn=None, tasks_return=False, max_events=12, drop_pool=False, spurious=True,
@@ -224,6 +234,7 @@ def pool_queries(enc, kf_name, only=None):
     qs.append(('each-connection-served-by-exactly-one-worker', twice, [nf]))
     panics = [enc.at_term(t, enc.S[k], 'panic') for k in [K] for t in enc.threads]
     qs.append(('no-panic-in-pool-code', z3.Or(*panics), [nf]))
+    qs.append(('a-dispatch-wakes-at-most-one-idle-worker', SK['dispatch_woke_several'], [nf]))
     qs.append(('witness/several-connections-started', z3.And(*[SK['runs:%d' % i] == 1 for i in enc.tasks[:3]]), [nf]))
     if only:
         qs = [q for q in qs if any(o in q[0] for o in only)]
@@ -233,10 +244,10 @@ def pool_queries(enc, kf_name, only=None):
 CONFIGS = {
     # name, dispatches, dynamic slots, K after start-up, worker event bound
     'quick': [('burst5-from-idle', 5, 2, 14, 12, ('is-started', 'no-panic', 'witness')),
-              ('burst3-from-idle', 3, 1, 9, 12, ('exactly-one-worker', 'witness'))],
+              ('burst3-from-idle', 3, 1, 9, 12, ('exactly-one-worker', 'at-most-one-idle', 'witness'))],
     'thorough': [('burst5-from-idle', 5, 3, 16, 14, ('is-started', 'no-panic', 'witness')),
                  ('burst6-from-idle', 6, 3, 18, 14, ('is-started', 'witness')),
-                 ('burst4-from-idle', 4, 2, 12, 14, ('exactly-one-worker', 'witness'))],
+                 ('burst4-from-idle', 4, 2, 12, 14, ('exactly-one-worker', 'at-most-one-idle', 'witness'))],
 }
 KNOWN = {'every-dispatched-connection-is-started/known-finding-still-present': 'dispatch-counts-woken-workers-as-idle'}
 
